@@ -8,6 +8,10 @@ From Coq Require Import List Arith Bool String.
 Import ListNotations.
 Require Import Verif.Model.C18_Types Verif.Model.C18.
 
+(* calls, threads, keys and objects of the two small models are plain nat *)
+Definition nupd {A} (f : nat -> A) (k : nat) (v : A) : nat -> A :=
+  fun k' => if Nat.eqb k' k then v else f k'.
+
 (* ===================== B. once-guard ===================== *)
 Inductive ophase := ONew | ORunning (c : nat) | ODone.
 Inductive cpc := CIdle | CRunning | CWaiting | CReturned.
@@ -43,11 +47,11 @@ Definition oeffect (s : ostate) (l : olabel) : ostate :=
   match l with
   | OCall c =>
       match o_phase s with
-      | ONew => mkO (ORunning c) (S (o_runs s)) (upd (o_pc s) c CRunning)
-      | _ => mkO (o_phase s) (o_runs s) (upd (o_pc s) c CWaiting)
+      | ONew => mkO (ORunning c) (S (o_runs s)) (nupd (o_pc s) c CRunning)
+      | _ => mkO (o_phase s) (o_runs s) (nupd (o_pc s) c CWaiting)
       end
   | OBodyEnd _ => mkO ODone (o_runs s) (o_pc s)
-  | OReturn c => mkO (o_phase s) (o_runs s) (upd (o_pc s) c CReturned)
+  | OReturn c => mkO (o_phase s) (o_runs s) (nupd (o_pc s) c CReturned)
   end.
 
 Definition ostep (s : ostate) (l : olabel) : option ostate :=
@@ -98,24 +102,24 @@ Definition mguard (locked : bool) (s : mstate) (l : mlabel) : bool :=
 
 Definition meffect (s : mstate) (l : mlabel) : mstate :=
   match l with
-  | MAcquire t k => mkM (Some t) (m_table s) (m_next s) (m_created s) (upd (m_pc s) t (MLocked k)) (m_results s)
+  | MAcquire t k => mkM (Some t) (m_table s) (m_next s) (m_created s) (nupd (m_pc s) t (MLocked k)) (m_results s)
   | MLookup t =>
       match m_pc s t with
       | MLocked k =>
           mkM (m_lock s) (m_table s) (m_next s) (m_created s)
-              (upd (m_pc s) t (match m_table s k with Some v => MGot k v | None => MMissing k end)) (m_results s)
+              (nupd (m_pc s) t (match m_table s k with Some v => MGot k v | None => MMissing k end)) (m_results s)
       | _ => s
       end
   | MCreate t =>
       match m_pc s t with
       | MMissing k =>
-          mkM (m_lock s) (upd (m_table s) k (Some (m_next s))) (S (m_next s)) ((k, m_next s) :: m_created s)
-              (upd (m_pc s) t (MGot k (m_next s))) (m_results s)
+          mkM (m_lock s) (nupd (m_table s) k (Some (m_next s))) (S (m_next s)) ((k, m_next s) :: m_created s)
+              (nupd (m_pc s) t (MGot k (m_next s))) (m_results s)
       | _ => s
       end
   | MRelease t =>
       match m_pc s t with
-      | MGot k v => mkM None (m_table s) (m_next s) (m_created s) (upd (m_pc s) t MIdle) ((t, k, v) :: m_results s)
+      | MGot k v => mkM None (m_table s) (m_next s) (m_created s) (nupd (m_pc s) t MIdle) ((t, k, v) :: m_results s)
       | _ => s
       end
   end.
